@@ -1,10 +1,13 @@
 use crate::fw::PropDef;
 pub mod c01;
 pub mod c03;
+pub mod c11;
+pub mod c12;
 pub mod c14;
 pub mod c15;
+pub mod c17;
 pub mod c20;
 
 pub fn all() -> Vec<PropDef> {
-    vec![c01::def(), c03::def(), c14::def(), c15::def(), c20::def()]
+    vec![c01::def(), c03::def(), c11::def(), c12::def(), c14::def(), c15::def(), c17::def(), c20::def()]
 }
